@@ -682,7 +682,7 @@ package ro
 //@   on complete@boundary(ctx) : emits window.CompleteWithContext(ctx), Complete(ctx)
 
 //@ operator GroupByIWithContext
-//@   props C05 C20 C09 C04 C08
+//@   props C05 C20 C09 C04 C08 C07
 //@   scope cb clearGroups ctx destination err groups i iteratee key notifyAll o source sub subscriberCtx value
 //@   alias subject=NewUnicastSubject()
 //@   track groups.Load groups.Store elem.* call.NewUnicastSubject NewUnicastSubject().*
